@@ -8,6 +8,13 @@ Correspondence run here:
       Python oracle (set of live ranks, mex) classifies every disagreement;
   T2c join/revive/free cycles with a ULT run on the stream before and after each revive;
   T3r creators racing for ranks from external threads and ULTs (ownership oracle in the harness);
+  T1  token skeletons of every rank / stream-list function of src/stream.c that Model.Rank and Model.RankConc
+      abstract (lock scope: where xstream_list_lock is taken and released relative to the scan and the update);
+  T3c concurrent create / create_with_rank (same and different free ranks) / set_rank / join+free / get_num from
+      external pthreads and ULTs on several streams under the controlled scheduler (harness/sc_ranks.c): every
+      trace is projected (vlib/t3_ranks.py: spinlock operations on xstream_list_lock + the real list walked at every
+      release) onto Lean Model.RankConc (`driver rankconc`), which has the scan and the update as separate steps
+      under the lock; native monitors (distinct ranks, refused only if held, get_num = live count, ABTI_ASSERTs);
   T3x abtd_stream.c (the tree's own text, compiled with virtual pthread primitives) driven through
       random interleavings incl. spurious wake-ups, event by event against Lean Model.XsCtx;
   RP  single-caller main-scheduler replacement family (BASIC/PRIO/RANDWS, work pending in old and
@@ -17,10 +24,22 @@ Correspondence run here:
 import collections, json, os, subprocess, time
 from vlib import common as C
 from vlib import diff as D
+from vlib import t1, t3_ranks, vs
 
 ASSUMPTIONS = [
-    "each rank operation is atomic (the C functions hold xstream_list_lock from first read to last write); "
-    "concurrent callers are modelled as interleavings of whole operations",
+    "the lock scope of rank allocation is modelled and checked, not assumed: Model.RankConc interleaves any number of "
+    "callers at the granularity test_and_set / scan / list update / release of xstream_list_lock, "
+    "Props.C17.Conc.conc_refines_atomic + conc_step_simulates prove that every completed call is exactly one atomic "
+    "Model.Rank call performed during its own lock hold (so the Part 1 theorems hold for all interleavings), T1 "
+    "skeletons tie the rank/list functions of stream.c, T3 validates controlled schedules of harness/sc_ranks.c "
+    "against the model incl. the real list at every lock release.  What is still assumed for concurrent callers: "
+    "sequentially consistent execution of the spinlock's atomic primitives; plain statements between two hook "
+    "points execute atomically under the controlled scheduler (the scan and the update of one critical section are "
+    "placed directly after its test_and_set in the projected trace)",
+    "API contract for concurrent callers (hypotheses of Model.RankConc's `call`): a non-NULL stream handle is used by "
+    "one in-flight call at a time (freeing or re-ranking a stream another thread is operating on is a use-after-free "
+    "/ data race on p_xstream->rank in C, not an error return); allocation failures inside xstream_create after "
+    "the rank was granted (xstream_return_rank on the FAILED path) are C18's subject and not part of the rank model",
     "handles passed to the API are NULL or live streams, malloc returns an address not in the list "
     "(violations are undefined behaviour in the API contract, not error returns)",
     "p_global->max_xstreams (grown by xstream_update_max_xstreams) is not part of the property and not modelled",
@@ -656,11 +675,55 @@ def wb_stale_prev(res, tier, broken):
 
 
 # --------------------------------------------------------------------------
+# T1 + T3c: the lock scope of rank allocation (Model.RankConc)
+# --------------------------------------------------------------------------
+T1_FUNCS = [("stream.c", f) for f in [
+    "ABT_xstream_create", "ABT_xstream_create_basic", "ABT_xstream_create_with_rank", "xstream_create",
+    "xstream_set_new_rank", "xstream_change_rank", "ABT_xstream_set_rank", "xstream_return_rank",
+    "xstream_add_xstream_list", "xstream_remove_xstream_list", "xstream_update_max_xstreams",
+    "ABT_xstream_get_num", "ABT_xstream_get_rank", "ABT_xstream_free", "ABTI_xstream_free",
+    "ABTD_spinlock_acquire", "ABTD_spinlock_release", "ABTD_spinlock_is_locked"]]
+
+RANKS_SC = ("sc_ranks", ["sc_ranks.c"])
+
+
+def ranks_params(rng):
+    """<nbase> <nactors> <rounds> <ext%> <nranks>: few ranks in the contended window so that creators collide"""
+    return [rng.below(3), 2 + rng.below(5), 2 + rng.below(4), rng.choice([0, 30, 50, 100]), 1 + rng.below(4)]
+
+
+def t1_ranks(res, broken):
+    n, tb = t1.check(T1_FUNCS)
+    res.add_cov(t1_functions=n, t1_broken=len(tb))
+    for b in tb:
+        broken.append({"kind": "T1-skeleton", **b})
+
+
+def t3_conc(res, tier, broken):
+    stats = collections.Counter()
+
+    def validate(lg, params):
+        return t3_ranks.validate(lg, params, stats)
+
+    t0 = time.time()
+    vs.campaign(res, broken, tier, "C17", RANKS_SC[0], RANKS_SC[1], ranks_params, validate,
+                sizes={"quick": (30, 4), "thorough": (200, 8), "search": (150, 6)})
+    res.add_cov(rankconc_wall_s=round(time.time() - t0, 1),
+                rankconc_calls_projected=stats["calls"], rankconc_call_histogram={k[5:]: v for k, v in stats.items() if k.startswith("call_")},
+                rankconc_critical_sections=stats["critical_sections"], rankconc_lock_contended_tas=stats["tas_failed"],
+                rankconc_creators_overlapping_another_creator=stats["creators_overlapping_another_creator"],
+                rankconc_same_rank_races=stats["same_rank_races"], rankconc_same_rank_race_won=stats["same_rank_race_won"],
+                rankconc_same_rank_race_lost=stats["same_rank_race_lost"])
+
+
+# --------------------------------------------------------------------------
 def run(res, tier, broken):
     t0 = time.time()
     exe = C.cc_harness("api_ranks", ["api_ranks.c"], "plain")
     snapshot_driver()
     try:
+        t1_ranks(res, broken)
+        t3_conc(res, tier, broken)
         t2_ranks(res, tier, broken, exe)
         t2_cycles(res, tier, broken, exe)
         wb_stale_prev(res, tier, broken)
@@ -675,6 +738,8 @@ def run(res, tier, broken):
 
 def replay(res, path):
     rep = json.load(open(path))
+    if rep.get("scenario") == RANKS_SC[0]:
+        return vs.replay(RANKS_SC[0], RANKS_SC[1], path, lambda lg, params: t3_ranks.validate(lg, params))
     exe = C.cc_harness("api_ranks", ["api_ranks.c"], "plain")
     if "ops" in rep:
         d = rank_disagreement(exe, rep["ops"])
